@@ -884,6 +884,47 @@ func (a *adv) send(m M) {
 	a.own = append(a.own, a.p.bcasts...)
 }
 
+// sendPerms sends m and then the same message with its justification list reordered: every rotation (short lists) plus
+// random permutations.  isJustified* must not depend on the order in which a sender lists the parts; the model treats
+// the lists as sets of parts with distinct sources, so any order sensitivity of the Go code shows as a mismatch
+// (LogUnjust for one order, acceptance for another).
+func (a *adv) sendPerms(m M) {
+	a.send(m)
+	for _, pm := range permsOf(a.r, m) {
+		a.send(pm)
+	}
+	a.c.h.Stats["adv:permuted-justifications"]++
+}
+
+// permsOf returns reorderings of m's justification list: all rotations when it is short, the reversal, and a few
+// random permutations (which also reorder the ROUND-CHANGEs among themselves and against the PREPAREs).
+func permsOf(r *rand.Rand, m M) []M {
+	n := len(m.J)
+	if n < 2 {
+		return nil
+	}
+	var out []M
+	with := func(j []M) {
+		c := m
+		c.J = j
+		out = append(out, c)
+	}
+	if n <= 9 {
+		for k := 1; k < n; k++ {
+			with(append(append([]M(nil), m.J[k:]...), m.J[:k]...))
+		}
+	}
+	rev := make([]M, n)
+	for i := range m.J {
+		rev[n-1-i] = m.J[i]
+	}
+	with(rev)
+	for k := 0; k < 3; k++ {
+		with(shuffle(r, m.J))
+	}
+	return out
+}
+
 func (a *adv) timeout() {
 	if a.p.canTimeout() {
 		a.c.timeout(a.p)
@@ -957,6 +998,22 @@ func (a *adv) defect(m M, which int) (M, string) {
 	case 9: // claims a prepared value nobody backs
 		m.PR, m.PV = m.PR+1, a.val()
 		name = "forged-claim"
+	case 10: // mixed prepared rounds: one round change (not the first one) claims a HIGHER prepared round than the attached prepares
+		var rcs []int
+		hi := int64(0)
+		for k := range j {
+			if j[k].T == 4 {
+				rcs = append(rcs, k)
+				if j[k].PR > hi {
+					hi = j[k].PR
+				}
+			}
+		}
+		if len(rcs) >= 2 && hi > 0 {
+			k := rcs[1+a.r.Intn(len(rcs)-1)]
+			j[k].PR, j[k].PV = hi+1, m.Val+1
+			name = "higher-pr-elsewhere"
+		}
 	}
 	m.J = j
 	return m, name
@@ -1047,7 +1104,7 @@ func genAdversarial(t *testing.T, r *rand.Rand, h *History, tmpl int) {
 				pp2, nm = a.defect(pp2, 1+r.Intn(9))
 				stat("pp-defect:" + nm)
 			}
-			a.send(pp2)
+			a.sendPerms(pp2)
 			for _, m := range a.prepares(nr, pp2.Val, a.q) {
 				a.send(m)
 			}
@@ -1067,11 +1124,14 @@ func genAdversarial(t *testing.T, r *rand.Rand, h *History, tmpl int) {
 						pp.J = a.qrc(rd, a.q, 1+int64(r.Intn(int(rd))), v, a.q)
 					}
 				}
-				d := r.Intn(14)
+				d := r.Intn(16)
+				if d == 15 {
+					d = 10
+				}
 				var nm string
 				pp, nm = a.defect(pp, d)
 				stat("pp-defect:" + nm)
-				a.send(pp)
+				a.sendPerms(pp)
 				if r.Intn(3) == 0 {
 					a.send(pp) // duplicate
 				}
